@@ -223,7 +223,7 @@ class P(b1.Plugin):
 
 def main(tier):
     t0 = time.time()
-    proof = common.proof_obligations("C06", modules=["EduceModel.Props.C06", "EduceModel.Props.E2E"])
+    proof = common.proof_obligations("C06", modules=["EduceModel.Props.C06", "EduceModel.Props.E2E", "EduceModel.Props.Profile"])
     n_defs, cap_vals = (250, 8) if tier == "quick" else (2500, 27)
     tie = b1.run_b1("C06", P(), n_defs, cap_vals, common.seed())
     return common.finish("C06", tier, t0, proof, tie)
